@@ -336,6 +336,10 @@ def tasks_for(tier):
         add('two-model-delmodel-d2', two, 2, 'lite', ('AddField',
                                                       'DeleteModel'))
         add('narrow-d2', narrow, 2, 'lite', KINDS)
+        # three steps over the tiny alphabet (an add/delete pair that the
+        # pre-processor collapses, next to a real change)
+        add('narrow-tiny-d3', narrow, 3, 'tiny',
+            ('AddField', 'DeleteField', 'ChangeField'))
         add('narrow-full-d1', narrow, 1, 'full', KINDS)
         add('two-model-d1', two, 1, 'full', KINDS + ('DeleteModel',))
     else:
